@@ -20,6 +20,9 @@ def oracle(p):
         return 'decode(encode(p)) differs from p', raw
     if d.encode() != raw:
         return 're-encoding the decoded PDU does not reproduce the bytes', raw
+    im = pdugen.intent_mismatch(p, d)
+    if im:
+        return 'a field does not survive: ' + im, raw
     if p.total_length() != len(raw):
         return 'total_length() says %d, %d bytes emitted' % (p.total_length(), len(raw)), raw
     return None, raw
@@ -40,7 +43,7 @@ def run(chk):
     chk.rule = ('PDU objects built from the public classes: all 7 PDU types, all 9x9 ordered adjacencies of user-information '
                 'sub-item kinds (each also alone, last, and embedded), AE titles of every length 0..16, UIDs of length 0, 1, '
                 '63, 64, item lists of length 0..7, integer fields at 0/1/mid/max, PDV payloads 0..70000 bytes, 0..5 PDVs, '
-                'plus seeded random values; oracle: real decode(encode(p)) = p and re-encoding = bytes; correspondence: the '
+                'plus seeded random values; oracle: real decode(encode(p)) = p (against the object and against the values its constructors were given) and re-encoding = bytes; correspondence: the '
                 'Lean model decodes the real bytes to the same canonical value, re-encodes to the same bytes and computes the '
                 'same total length; items built with default arguments; items re-used (values assigned through the public attributes '
                 'must be the values encoded); a second stream of mutated encodings compares ok/error classification; non-trivial = '
